@@ -8,7 +8,7 @@
    differential campaign only).  The protocol's parameters are the site facts regenerated from the
    source into Gen/S_mlir.v on every run. *)
 From Coq Require Import ZArith List Bool.
-From Verif Require Import Py Shape S_mlir Mlir MlirP.
+From Verif Require Import Py Shape S_mlir S_mlir_df Mlir MlirP.
 Import ListNotations.
 
 (* ---------------------------------------------------------------- _determine_format *)
@@ -34,6 +34,25 @@ Theorem determine_format_total :
     exists f, determine_format fmts union out_ndim = Ok f.
 Proof. exact determine_format_total_proof. Qed.
 Print Assumptions determine_format_total.
+
+(* the scalar decisions of formats._determine_format / _get_sparse_dense_levels, TRANSLATED from the source
+   on every run (Gen/S_mlir_df.v), equal the sub-expressions the model is built from, for all inputs.  (The
+   non-scalar statements — loop header, the tuple-slicing order update, keyword wiring — are pinned by
+   their text in tools/sitegen/mlir.py; a change there is a broken obligation of kind "site".) *)
+Theorem determine_format_source_tie :
+  (forall on : option Z, g_df_empty_ndim (oz on) = Ok (VInt (match on with Some n => n | None => 0 end)))
+  /\ (forall u : bool, g_df_empty_level (VBool u) = Ok (VInt (if u then 0 else 1)))
+  /\ (forall u : bool, g_df_counter (VBool u) = Ok (VInt (if u then 0 else 1)))
+  /\ (forall c, g_df_step_count VNone (VInt c) = Ok (VInt c))
+  /\ (forall a c, g_df_step_count (VInt a) (VInt c) = Ok (VInt (Z.max a c)))
+  /\ (forall a w, g_df_step_pos (VInt a) (VInt w) = Ok (VInt (Z.max a w)))
+  /\ (forall a w, g_df_step_crd (VInt a) (VInt w) = Ok (VInt (Z.max a w)))
+  /\ (forall n nc u, g_df_nsparse (VInt n) (VInt nc) (VBool u) = Ok (VInt (df_nsparse n nc u)))
+  /\ (forall ns nd, g_gsdl_guard (VInt ns) VNone (VInt nd) = Ok (VBool false))
+  /\ (forall ns nd, g_gsdl_fill (VInt ns) VNone (VInt nd) = Ok (VTuple [VInt ns; VInt (nd - ns); VInt nd]))
+  /\ (forall nd ndn ns, g_gsdl_ok (VInt nd) (VInt ndn) (VInt ns) = Ok (VBool (gsdl_ok nd ndn ns))).
+Proof. exact determine_format_source_tie_proof. Qed.
+Print Assumptions determine_format_source_tie.
 
 (* ---------------------------------------------------------------- constituent-array layouts *)
 (* MLIR's reading of the arrays `_from_scipy` passes (in the extracted order, under the extracted
@@ -77,14 +96,33 @@ Theorem roundtrip_layout_dense :
 Proof. exact roundtrip_layout_dense_proof. Qed.
 Print Assumptions roundtrip_layout_dense.
 
+(* CSF of rank 3 and 4 (Csf().with_ndim(n): dense, compressed, ..., compressed; identity order): the arrays in
+   field order (pointers_to_1, indices_1, pointers_to_2, indices_2, ..., values) denote the nested-loop meaning,
+   for every shape and pattern.  (get_constituent_arrays(from_constituent_arrays(a)) hands the same buffers
+   back; that the builder of a pattern and this reading are inverse is checked per case by judge_layout.) *)
+Theorem roundtrip_layout_csf3 :
+  forall (V : Type) (v0 : V) n0 n1 n2 pos1 crd1 pos2 crd2 (data : list V),
+  storage_entries v0 (map l_fmt (csf_levels 3)) [0; 1; 2]%Z [n0; n1; n2] [pos1; crd1; pos2; crd2] data
+  = Some (csf3_entries v0 n0 pos1 crd1 pos2 crd2 data).
+Proof. exact csf3_layout. Qed.
+Print Assumptions roundtrip_layout_csf3.
+
+Theorem roundtrip_layout_csf4 :
+  forall (V : Type) (v0 : V) n0 n1 n2 n3 pos1 crd1 pos2 crd2 pos3 crd3 (data : list V),
+  storage_entries v0 (map l_fmt (csf_levels 4)) [0; 1; 2; 3]%Z [n0; n1; n2; n3]
+                  [pos1; crd1; pos2; crd2; pos3; crd3] data
+  = Some (csf4_entries v0 n0 pos1 crd1 pos2 crd2 pos3 crd3 data).
+Proof. exact csf4_layout. Qed.
+Print Assumptions roundtrip_layout_csf4.
+
 (* ---------------------------------------------------------------- to_numpy's order inversion *)
-(* for every level order (a permutation of the axes) of rank 1..4 — the property's own bound; proved by
-   enumerating the 33 permutations — to_numpy returns the array's shape and reads each element from the
-   position MLIR stores it at.  (Which sequence `storage_shape` is gathered through is the extracted
-   fact site_to_numpy_shape_by_inverse; with the pre-fix value `true` this statement does not prove.) *)
+(* for EVERY rank and every level order (any permutation of the axes): to_numpy returns the array's shape and
+   reads each element from the position MLIR stores it at — transposing by the inverse permutation the
+   storage reshaped by the order is the identity layout.  (Which sequence `storage_shape` is gathered
+   through is the extracted fact site_to_numpy_shape_by_inverse; with the pre-fix value this does not prove.) *)
 Theorem to_numpy_order_correct :
-  forall order, In order (perms_upto 4) ->
-  forall sh ix, length sh = length order -> length ix = length order ->
+  forall order sh ix, is_permb order (length order) = true ->
+    length sh = length order -> length ix = length order ->
     to_numpy_shape order sh = sh /\ to_numpy_pos order sh ix = dense_pos order sh ix.
 Proof. exact to_numpy_order_correct_proof. Qed.
 Print Assumptions to_numpy_order_correct.
@@ -96,17 +134,23 @@ Theorem sites_ok : forallb (fun b => b) (required_edges (site_cfg false)) = true
 Proof. exact sites_ok_proof. Qed.
 Print Assumptions sites_ok.
 
-(* Full statement: for every dtype, every event history (creations, operations, views, deletions in
-   any order, any valid collector behaviour), no live object sits over a freed buffer, and no buffer
-   is freed twice.  FALSE for the dtypes whose memref views mlir_finch wraps in a second view
-   (complex64/128, float16): see no_use_after_free_refuted.  Proved part: any configuration that has
-   the required edges and unwrapped views, hence the extracted configuration for plain dtypes. *)
+(* Which view-creation patterns are safe.  Events: EGetView (an array of get_constituent_arrays(): carries the
+   _hold_ref finaliser), EDerive (a NumPy view of an owning ndarray, of a plain memref view, or of a view of
+   those: its base chain keeps the anchor), ECollapse (a NumPy view of a WRAPPED memref view — complex64/128,
+   float16, where mlir_finch returns inner.view(dtype): NumPy records `inner` as the base and the finaliser is
+   lost).  Theorem: with the required edges, EVERY history (creations, operations, views, deletions in any
+   order, any valid collector) that is free of ECollapse — or any history at all when views are not wrapped —
+   leaves no live object over a freed buffer and frees no buffer twice.
+   The unrestricted statement is FALSE for wrapped dtypes: no_use_after_free_refuted (the history is
+   x = asarray(a); r = add(x, x); out = to_numpy(r); del r — to_numpy itself performs the ECollapse). *)
 Theorem no_use_after_free :
-  forall (c : cfg) (h : list event), edges_ok c = true -> c_wrapped c = false ->
+  forall (c : cfg) (h : list event), edges_ok c = true ->
+    (c_wrapped c = false \/ no_collapse h = true) ->
     safeb (run c h) = true /\ free_once (run c h) = true.
 Proof. exact no_use_after_free_proof. Qed.
 Print Assumptions no_use_after_free.
 
+(* the extracted configuration, plain dtypes: every history *)
 Theorem no_use_after_free_partial :
   forall (dt : Z) (h : list event), wrapped_dtype dt = false ->
     safeb (run (site_cfg (wrapped_dtype dt)) h) = true
@@ -114,8 +158,18 @@ Theorem no_use_after_free_partial :
 Proof. exact no_use_after_free_sites_proof. Qed.
 Print Assumptions no_use_after_free_partial.
 
+(* the extracted configuration, any dtype: every history that derives no NumPy view from a memref view
+   (get_constituent_arrays, to_scipy, add, reshape, asformat, copy, deletions in any order are all safe) *)
+Theorem no_use_after_free_wrapped_partial :
+  forall (dt : Z) (h : list event), no_collapse h = true ->
+    safeb (run (site_cfg (wrapped_dtype dt)) h) = true
+    /\ free_once (run (site_cfg (wrapped_dtype dt)) h) = true.
+Proof. exact no_use_after_free_wrapped_proof. Qed.
+Print Assumptions no_use_after_free_wrapped_partial.
+
 Theorem no_use_after_free_refuted :
-  exists (dt : Z) (h : list event), safeb (run (site_cfg (wrapped_dtype dt)) h) = false.
+  exists (dt : Z) (h : list event),
+    edges_ok (site_cfg (wrapped_dtype dt)) = true /\ safeb (run (site_cfg (wrapped_dtype dt)) h) = false.
 Proof. exact no_use_after_free_refuted_proof. Qed.
 Print Assumptions no_use_after_free_refuted.
 
